@@ -505,6 +505,22 @@ func randomTokens(r *rand.Rand, g *world.Generated, feeds []string, n int, safeO
 			out = append(out, tok(":feed", ":feed "+feeds[r.Intn(len(feeds))]+"\r"))
 		case x < 87:
 			out = append(out, tok(":garbage", []string{":garbage\r", ":open\r", ":feed nosuch\r", ":quit now\r", ": \r", ":\r", ":open  \r", ":op\x7f\x7f\x7f\x7fj", ":abc\x1bk"}[r.Intn(9)]))
+		case x < 88:
+			// command-mode typing with bytes >= 0x80 (each becomes a two-byte rune in the buffer) and backspaces
+			var b []byte
+			b = append(b, ':')
+			for i, k := 0, 1+r.Intn(4); i < k; i++ {
+				if r.Intn(2) == 0 {
+					b = append(b, byte(0x80+r.Intn(0x80)))
+				} else {
+					b = append(b, "xyzopen feed"[r.Intn(12)])
+				}
+			}
+			for i, k := 0, r.Intn(6); i < k; i++ {
+				b = append(b, 0x7f)
+			}
+			b = append(b, []byte{'j', 0x1b, '\r', 'k'}[r.Intn(4)])
+			out = append(out, token{b, ":bytes+backspaces"})
 		case x < 89:
 			out = append(out, tok("esc", "\x1b"))
 		case x < 91:
